@@ -21,6 +21,8 @@ pub struct LoopState {
     pub res_len: usize,
     /// an over-long message is being discarded up to its terminator
     pub discarding: bool,
+    /// lexical state carried along while discarding (second hook; all zero otherwise)
+    pub scan: (u8, usize, usize),
 }
 
 pub struct Transport<'a> {
@@ -42,6 +44,7 @@ pub struct Transport<'a> {
     pub hook_calls: usize,
     pub hook_bad_offsets: usize,
     pub hook_res_nonempty: usize,
+    pub hook_scan_calls: usize,
     pub cap_n: usize,
     /// if set, the loop state seen at every hook call is stored (BFS key)
     pub keep_states: bool,
@@ -68,6 +71,7 @@ impl<'a> Transport<'a> {
             hook_calls: 0,
             hook_bad_offsets: 0,
             hook_res_nonempty: 0,
+            hook_scan_calls: 0,
             cap_n: n,
             keep_states: false,
             last_state: LoopState::default(),
@@ -171,6 +175,15 @@ impl Adapter for Transport<'_> {
             self.last_state.read_offset = read_offset;
             self.last_state.res_len = res_len;
             self.last_state.discarding = discarding;
+            self.last_state.scan = (0, 0, 0);
+        }
+    }
+
+    #[cfg(microscpi_verif_scan)]
+    fn verif_scanner_state(&mut self, kind: u8, a: usize, b: usize) {
+        self.hook_scan_calls += 1;
+        if self.keep_states {
+            self.last_state.scan = (kind, a, b);
         }
     }
 }
